@@ -203,3 +203,34 @@ PLANS["C16"] = Plan(
 )
 
 PLANS["C16"].bounded = ("bounded/c16.py", [], [])
+
+
+# ------------------------------------------------------------------ properties whose proof layer is partial:
+# the bounded driver carries the claim (level "other"), proof obligations are added as they are built
+def _other(pid, proofs, expl):
+    PLANS[pid] = Plan(level="other", proofs=proofs, bounded=("bounded/c%s.py" % pid[1:], [], []),
+                      trusted_base=BASE_TRUST, explanation=expl)
+
+
+_other("C09", [("contracts.unit_ops", "SameDimensionsAs")] + ROUTES,
+       "bounded: all 9 equivalences x all ordered dimension pairs x units x call forms against the closed-form "
+       "formulas on SI magnitudes; proved: the final unit conversion and purity of the copying routes (in_units/to)")
+_other("C10", ROUTES + CONV[:1],
+       "bounded: all registered and generated unit systems x all table atoms x compounds; proved: quantity "
+       "preservation of the conversion step (conversion-factor contract)")
+_other("C11", [("contracts.units_core", "UnitStr"), ("contracts.units_core", "UnitRepr")],
+       "bounded: 21 restoration routes x registries x follow-up battery in both orders; proved: the printed form "
+       "used for persistence (Unit.__str__/__repr__ special cases)")
+_other("C12", [("contracts.units_core", "LookupUnitSymbol"), ("contracts.units_core", "SplitPrefix")],
+       "bounded: all registry histories to length 3-4 (thorough 5-6) + random long ones against a fresh registry; "
+       "proved: the derived-row write-back of _lookup_unit_symbol (exactly one row written, scale = prefix x base)")
+_other("C13", [("contracts.units_core", "LookupUnitSymbol")],
+       "bounded: interleavings on 2-3 registries created by ten routes, default registry digest after each step; "
+       "proved: _lookup_unit_symbol writes only into the table it is given")
+_other("C19", [("contracts.unit_ops", "UnitEq"), ("contracts.unit_ops", "SameDimensionsAs")],
+       "bounded: tolerance scenarios in SI magnitudes written in every unit pair, decorators over all dimensions; "
+       "proved: Unit.__eq__ decides by scale/offset/dimension only and same_dimensions_as by the dimension vector")
+_other("C20", [("contracts.units_core", c) for c in ("UnitStr", "UnitRepr", "SplitPrefix", "LookupUnitSymbol")],
+       "bounded: grammar-based, token-mutation and byte fuzzing (28k strings quick) + print/parse round trips over "
+       "all names and random unit arithmetic; proved: prefix split and table lookup raise only UnitParseError, "
+       "__str__/__repr__ special cases")
